@@ -38,9 +38,19 @@ const char* const FILES[4] = { "tests/alpha.cpp", "tests/beta.cpp", "src/helper.
 const char* const PHASE[3] = { "setup", "body", "teardown" };
 
 enum Kind { MARK, PASS, PASSC, FAILCPP, CHECKCPP, FAILC, CHECKC, FAILPLAIN, CHECKPLAIN, FAILCPLAIN, CHECKCPLAIN,
-            FAILTEST, FAILTESTPLAIN, SHELLFAIL, SHELLFAILC, THROWSTD, THROWOTHER, EXITTEST, EXITTESTC };
+            FAILTEST, FAILTESTPLAIN, SHELLFAIL, SHELLFAILC, THROWSTD, THROWOTHER, EXITTEST, EXITTESTC, CHECKKIND };
 
-struct St { Kind kind; int n; int file; size_t line; };   // file: -1 = the test's own file
+// one real check per assert function / macro family (`checkKind <k> <pass|fail> <file> <line>`)
+enum CK { CK_CHECK, CK_CHECKTEXT, CK_CHECKEQUAL, CK_LONGS, CK_ULONGS, CK_LONGLONGS, CK_ULONGLONGS, CK_BYTES, CK_SBYTES,
+          CK_POINTERS, CK_FPOINTERS, CK_DOUBLES, CK_STRCMP, CK_STRNCMP, CK_STRCMPNOCASE, CK_STRCMPCONTAINS,
+          CK_STRCMPNOCASECONTAINS, CK_MEMCMP0, CK_MEMCMP, CK_BITS, CK_COMPARE, CK_ENUMSINT, CK_THROWS,
+          CK_CINT, CK_CREAL, CK_CSTRING, CK_CPOINTER, CK_CMEMCMP0, CK_CMEMCMP, CK_CBITS, CK_CHECKC, CK_COUNT };
+const char* const CKNAME[CK_COUNT] = { "check", "checkText", "checkEqual", "longs", "ulongs", "longlongs", "ulonglongs", "bytes",
+          "sbytes", "pointers", "fpointers", "doubles", "strcmp", "strncmp", "strcmpNocase", "strcmpContains",
+          "strcmpNocaseContains", "memcmp0", "memcmp", "bits", "compare", "enumsInt", "throws",
+          "cInt", "cReal", "cString", "cPointer", "cMemcmp0", "cMemcmp", "cBits", "checkC" };
+
+struct St { Kind kind; int n; int file; size_t line; int ck; bool pass; };   // file: -1 = the test's own file
 
 struct TestDef {
     std::string label, group, name;
@@ -52,6 +62,10 @@ struct PErr { std::string only; const char* file; size_t line; };   // only == "
 
 struct PluginDef { std::string name; bool enabled; std::vector<PErr> pre, post; };
 
+#if CPPUTEST_HAVE_EXCEPTIONS
+void maybe_throw(bool yes) { if (yes) throw std::runtime_error("x"); }
+#endif
+
 // ---- the plain macros: one site each, on five consecutive lines
 enum { SITE_LINE0 = __LINE__ + 1 };
 void site_fail_plain()   { FAIL("failplain"); }
@@ -59,6 +73,57 @@ void site_check_plain()  { CHECK(false); }
 void site_failc_plain()  { FAIL_TEXT_C("failcplain"); }
 void site_checkc_plain() { CHECK_C(0); }
 void site_failtest_plain() { FAIL_TEST("failtestplain"); }
+void site_bytes(int a) { BYTES_EQUAL(0x101, a); }
+void site_compare(int b) { CHECK_COMPARE(1, <, b); }
+#if CPPUTEST_HAVE_EXCEPTIONS
+void site_throws(bool pass) { CHECK_THROWS(std::runtime_error, maybe_throw(pass)); }
+#else
+void site_throws(bool) { }
+#endif
+enum { SITE_COUNT = 8 };
+
+void fp_a() {}
+void fp_b() {}
+enum Colour { RED = 1, BLUE = 2 };
+
+// ONE real check of kind `ck`; `pass` chooses operands that satisfy / violate it (with length 0 both pass)
+void do_check(int ck, bool pass, const char* f, size_t l) {
+    static const unsigned char m1[3] = { 1, 2, 3 }, m2[3] = { 1, 2, 3 }, m3[3] = { 1, 9, 3 };
+    static int target1 = 0, target2 = 0;
+    switch (ck) {
+    case CK_CHECK: CHECK_TRUE_LOCATION(pass, "CHECK", "cond", NULLPTR, f, l); break;
+    case CK_CHECKTEXT: CHECK_TRUE_LOCATION((bool) (pass), "CHECK", "cond", "txt", f, l); break;
+    case CK_CHECKEQUAL: CHECK_EQUAL_LOCATION(1, pass ? 1 : 2, NULLPTR, f, l); break;
+    case CK_LONGS: LONGS_EQUAL_LOCATION(1, pass ? 1 : 2, NULLPTR, f, l); break;
+    case CK_ULONGS: UNSIGNED_LONGS_EQUAL_LOCATION(1, pass ? 1 : 2, NULLPTR, f, l); break;
+    case CK_LONGLONGS: LONGLONGS_EQUAL_LOCATION(1, pass ? 1 : 2, NULLPTR, f, l); break;
+    case CK_ULONGLONGS: UNSIGNED_LONGLONGS_EQUAL_LOCATION(1, pass ? 1 : 2, NULLPTR, f, l); break;
+    case CK_BYTES: site_bytes(pass ? 0x201 : 0x202); break;
+    case CK_SBYTES: SIGNED_BYTES_EQUAL_TEXT_LOCATION(-1, pass ? -1 : 2, NULLPTR, f, l); break;
+    case CK_POINTERS: POINTERS_EQUAL_LOCATION((void*) 0x1000, pass ? (void*) 0x1000 : (void*) 0x2000, NULLPTR, f, l); break;
+    case CK_FPOINTERS: FUNCTIONPOINTERS_EQUAL_LOCATION((void (*)()) 0x1000, pass ? (void (*)()) 0x1000 : (void (*)()) 0x2000, NULLPTR, f, l); break;
+    case CK_DOUBLES: DOUBLES_EQUAL_LOCATION(10.0, pass ? 10.0 : 20.0, 5.0, NULLPTR, f, l); break;
+    case CK_STRCMP: STRCMP_EQUAL_LOCATION("abc", pass ? "abc" : "abd", NULLPTR, f, l); break;
+    case CK_STRNCMP: STRNCMP_EQUAL_LOCATION("abc", pass ? "abd" : "axd", 2, NULLPTR, f, l); break;
+    case CK_STRCMPNOCASE: STRCMP_NOCASE_EQUAL_LOCATION("abc", pass ? "ABC" : "ABD", NULLPTR, f, l); break;
+    case CK_STRCMPCONTAINS: STRCMP_CONTAINS_LOCATION("bc", pass ? "abcd" : "abd", NULLPTR, f, l); break;
+    case CK_STRCMPNOCASECONTAINS: STRCMP_NOCASE_CONTAINS_LOCATION("bc", pass ? "aBCd" : "abd", NULLPTR, f, l); break;
+    case CK_MEMCMP0: { size_t n = (size_t) (target1 * 0); MEMCMP_EQUAL_LOCATION(m1, pass ? m2 : m3, n, NULLPTR, f, l); } break;
+    case CK_MEMCMP: MEMCMP_EQUAL_LOCATION(m1, pass ? m2 : m3, 3, NULLPTR, f, l); break;
+    case CK_BITS: BITS_LOCATION(0x15, pass ? 0x35 : 0x14, 0x0F, NULLPTR, f, l); break;
+    case CK_COMPARE: site_compare(pass ? 2 : 0); break;
+    case CK_ENUMSINT: ENUMS_EQUAL_TYPE_LOCATION(int, RED, pass ? RED : BLUE, NULLPTR, f, l); break;
+    case CK_THROWS: site_throws(pass); break;
+    case CK_CINT: CHECK_EQUAL_C_INT_LOCATION(1, pass ? 1 : 2, NULLPTR, f, l); break;
+    case CK_CREAL: CHECK_EQUAL_C_REAL_LOCATION(10.0, pass ? 10.0 : 20.0, 5.0, NULLPTR, f, l); break;
+    case CK_CSTRING: CHECK_EQUAL_C_STRING_LOCATION("abc", pass ? "abc" : "abd", NULLPTR, f, l); break;
+    case CK_CPOINTER: CHECK_EQUAL_C_POINTER_LOCATION((void*) 0x1000, pass ? (void*) 0x1000 : (void*) 0x2000, NULLPTR, f, l); break;
+    case CK_CMEMCMP0: { size_t n = (size_t) (target1 * 0); CHECK_EQUAL_C_MEMCMP_LOCATION(m1, pass ? m2 : m3, n, NULLPTR, f, l); } break;
+    case CK_CMEMCMP: CHECK_EQUAL_C_MEMCMP_LOCATION(m1, pass ? m2 : m3, 3, NULLPTR, f, l); break;
+    case CK_CBITS: CHECK_EQUAL_C_BITS_LOCATION(0x15, pass ? 0x35 : 0x14, 0x0F, sizeof(unsigned int), NULLPTR, f, l); break;
+    case CK_CHECKC: CHECK_C_LOCATION(pass ? 1 : 0, "cond", NULLPTR, f, l); break;
+    }
+}
 
 void emit_words(const vh::Words& w) {
     std::string s;
@@ -93,6 +158,7 @@ void interpret(const TestDef* d, int ph) {
         case SHELLFAIL: UtestShell::getCurrent()->fail("shellfail", f, s.line); break;
         case SHELLFAILC: UtestShell::getCurrent()->fail("shellfailc", f, s.line, TestTerminatorWithoutExceptions()); break;
         case EXITTESTC: UtestShell::getCurrent()->exitTest(TestTerminatorWithoutExceptions()); break;
+        case CHECKKIND: do_check(s.ck, s.pass, f, s.line); break;
 #if CPPUTEST_HAVE_EXCEPTIONS
         case THROWSTD: throw std::runtime_error("boom");
         case THROWOTHER: throw 42;
@@ -232,10 +298,21 @@ PluginDef* find_plugin(Program& p, const std::string& name) {
 }
 
 bool parse_stmt(const vh::Words& w, size_t at, St& s) {
-    s.n = 0; s.file = -1; s.line = 0;
+    s.n = 0; s.file = -1; s.line = 0; s.ck = 0; s.pass = true;
     if (at >= w.size()) return false;
     const std::string& k = w[at];
     size_t rest = w.size() - at - 1;
+    if (k == "checkKind" && rest == 4 && (w[at + 2] == "pass" || w[at + 2] == "fail")) {
+        int ck = -1;
+        for (int i = 0; i < CK_COUNT; i++) if (w[at + 1] == CKNAME[i]) ck = i;
+        if (ck < 0) return false;
+#if !CPPUTEST_HAVE_EXCEPTIONS
+        if (ck == CK_THROWS) return false;       // the macro does not exist in this build
+#endif
+        s.kind = CHECKKIND; s.ck = ck; s.pass = w[at + 2] == "pass";
+        s.file = file_index(w[at + 3]); s.line = (size_t) vh::to_u64(w[at + 4]);
+        return s.file != -2;
+    }
     if (k == "mark" && rest == 1) { s.kind = MARK; s.n = (int) vh::to_u64(w[at + 1]); return true; }
     if (k == "pass" && rest == 0) { s.kind = PASS; return true; }
     if (k == "passc" && rest == 0) { s.kind = PASSC; return true; }
@@ -337,8 +414,10 @@ void run_case(const vh::Case& c) {
             vh::emit("variant noexc");
 #endif
             // the lines of the five plain macro sites (their functions are laid out one per line)
-            vh::emit("sites %s %d %d %d %d %d", vh::hex(std::string(__FILE__)).c_str(),
-                     SITE_LINE0, SITE_LINE0 + 1, SITE_LINE0 + 2, SITE_LINE0 + 3, SITE_LINE0 + 4);
+            // (bytes, compare and throws follow; the throws site sits two lines further in the exceptions build)
+            vh::emit("sites %s %d %d %d %d %d %d %d %d", vh::hex(std::string(__FILE__)).c_str(),
+                     SITE_LINE0, SITE_LINE0 + 1, SITE_LINE0 + 2, SITE_LINE0 + 3, SITE_LINE0 + 4, SITE_LINE0 + 5, SITE_LINE0 + 6,
+                     SITE_LINE0 + 8);
         }
         else if (op == "clock" && w.size() >= 4 && w.size() <= 11) {      // clock <base> <step> <off>...
             bool ok = true;
